@@ -205,18 +205,21 @@ func observe(c ctx, k *hdkeychain.ExtendedKey, n *hdref.Node, version []byte, wh
 		rep.Violate("C04:address:conforms", "Address() text differs from the P2PKH address of the reference identifier",
 			c.replay(map[string]interface{}{"node": what, "impl": addr.EncodeAddress()}))
 	}
-	// the address is a function of the key and of the network PASSED to Address: ask the same object for two more
-	// networks (and the first one again) -- nothing may be left over from the earlier calls (review round 2)
-	for d := 1; d <= 3; d++ {
-		on := nets[(c.net+d*d)%len(nets)] // +1, +4, +9 = +3 (mod 6), then the original net again below
-		if d == 3 {
-			on = nets[c.net]
+	// the address is a function of the key and of the network PASSED to Address: ask the SAME object for its address on
+	// every registered network, in an order that varies from node to node, and finally for the first one again --
+	// nothing may be left over from earlier calls (several networks share HD version bytes but not the address
+	// prefix: regtest / testnet3 / testnet4 / chipnet) (review round 2)
+	perm := addrOrders[(int(f.ChildNum%6)+int(f.Depth)+c.net)%len(addrOrders)] // a function of the node, so that a replay asks in the same order
+	for d := 0; d <= len(nets); d++ {
+		on := nets[c.net]
+		if d < len(nets) {
+			on = nets[perm[d]]
 		}
 		a2, err2 := k.Address(on)
 		want2, err3 := bchutil.NewAddressPubKeyHash(id, on)
 		if err2 != nil || err3 != nil || a2.EncodeAddress() != want2.EncodeAddress() || !a2.IsForNet(on) || !bytes.Equal(a2.Hash160()[:], id) {
 			rep.Violate("C04:address:conforms", "Address(net) called again on the same key object with another network is not the P2PKH address of HASH160(serP(K)) on THAT network",
-				c.replay(map[string]interface{}{"node": what, "first_call_net": nets[c.net].Name, "this_call_net": on.Name, "err": fmt.Sprint(err2), "impl": fmt.Sprint(a2), "want": fmt.Sprint(want2)}))
+				c.replay(map[string]interface{}{"node": what, "first_call_net": nets[c.net].Name, "this_call_net": on.Name, "call_number_on_this_object": d + 2, "err": fmt.Sprint(err2), "impl": fmt.Sprint(a2), "want": fmt.Sprint(want2)}))
 			break
 		}
 	}
@@ -233,6 +236,9 @@ func observe(c ctx, k *hdkeychain.ExtendedKey, n *hdref.Node, version []byte, wh
 		rep.Violate("C04:ecpriv", "ECPrivKey() on a public key did not return ErrNotPrivExtKey", c.replay(map[string]interface{}{"node": what, "err": fmt.Sprint(err)}))
 	}
 }
+
+// orders in which one key object is asked for its address on all six networks (indices into nets)
+var addrOrders = [][]int{{0, 1, 2, 3, 4, 5}, {4, 1, 0, 3, 5, 2}, {5, 4, 3, 2, 1, 0}, {1, 4, 2, 5, 3, 0}, {3, 0, 4, 1, 5, 2}, {2, 5, 1, 4, 0, 3}, {4, 2, 4, 3, 4, 1}}
 
 type walkOpt struct {
 	childEvery int  // emit a Child case for every n-th step (0: none)
@@ -624,6 +630,108 @@ func pubChain(seed []byte, net int, prefix, path []uint32, corr bool) {
 	}
 }
 
+// parsedWalk: the tree below a key obtained from NewKeyFromString (the xprv, or the xpub, of the node seed/prefix).
+// Every descendant must be the BIP32 node; after every step -- which prints the newest key, neuters it, takes its
+// addresses -- EVERY ancestor object, in particular the parsed one (whose four field slices are ranges of one
+// decoded buffer with spare capacity), is observed again and must still be its own node (review round 2).
+func parsedWalk(seed []byte, net int, prefix, path []uint32, public bool, corr bool) {
+	c := ctx{seed: seed, net: net, path: prefix}
+	k0, err := derivePriv(seed, net, prefix)
+	n := refDerive(seed, prefix)
+	if err != nil || n == nil {
+		return
+	}
+	ver := nets[net].HDPrivateKeyID[:]
+	if public {
+		if k0, err = k0.Neuter(); err != nil {
+			return
+		}
+		n = hdref.Neuter(n)
+		ver = nets[net].HDPublicKeyID[:]
+	}
+	extra := map[string]interface{}{"parsed_at": len(prefix), "parsed_public": public,
+		"history": "the key at path[:parsed_at] (neutered if parsed_public) is printed and parsed back with NewKeyFromString; the rest of the path is derived from the parsed object, observing every ancestor object again after every step"}
+	p, err := hdkeychain.NewKeyFromString(k0.String())
+	if err != nil {
+		rep.Violate("C04:string:conforms", "the string of a derived key does not parse", c.replay(extra))
+		return
+	}
+	type link struct {
+		k *hdkeychain.ExtendedKey
+		n *hdref.Node
+	}
+	chain := []link{{p, n}}
+	full := append([]uint32{}, prefix...)
+	for _, i := range path {
+		if public {
+			i &^= H
+		}
+		cur := chain[len(chain)-1]
+		if cur.n.Depth == 255 {
+			break
+		}
+		full = append(full, i)
+		c.path = full
+		parF := cur.k.VerifFields()
+		ch, err := cur.k.Child(i)
+		rep.Count("child_of_parsed", fmt.Sprint("pw", vh.Hex(parF.Key), vh.Hex(parF.ChainCode), i), true)
+		co := hdref.NewOracle()
+		var cn *hdref.Node
+		var st hdref.Status
+		var gap hdref.Gap
+		if public {
+			cn, st, gap = hdref.CKDpub(co, cur.n, i)
+		} else {
+			cn, st, gap = hdref.CKDpriv(co, cur.n, i)
+		}
+		if gap.ILZero || gap.ChildZero {
+			gapsSeen++
+			return
+		}
+		key := "C04:child:priv_conforms"
+		if public {
+			key = "C04:child:pub_conforms"
+		}
+		if (st == hdref.Valid) != (err == nil) {
+			rep.Violate(key, "Child validity differs from the reference below a key obtained from NewKeyFromString", c.replay(extra))
+			return
+		}
+		if err != nil {
+			return
+		}
+		if d := conforms(ch, cn, ver); d != "" {
+			rep.Violate(key, "Child of a key obtained from NewKeyFromString (or of its descendant) differs from the BIP32 node in: "+d, c.replay(extra))
+			return
+		}
+		if corr {
+			childOracle(co, parF, i)
+			cases.Add(fmt.Sprintf("Child %s %s %d %s", co.Coq(), coqKey(parF), i, coqRes(ch, err)),
+				map[string]interface{}{"op": "Child (below a parsed key)", "seed": vh.Hex(seed), "path": pathStr(full), "parsed_at": len(prefix), "index": i})
+		}
+		chain = append(chain, link{ch, cn})
+		// print / neuter / address the newest key, then look at every ancestor object again (oldest first)
+		observe(c, ch, cn, ver, "below a parsed key")
+		if !public {
+			if nk, err := ch.Neuter(); err == nil {
+				_ = nk.String()
+			}
+		}
+		for ai, a := range chain[:len(chain)-1] {
+			ca := ctx{seed: seed, net: net, path: full[:len(prefix)+ai]}
+			ex := map[string]interface{}{"parsed_at": len(prefix), "parsed_public": public, "history": extra["history"],
+				"then": fmt.Sprintf("derived down to %s from it (String / Neuter / Address on every new key); this ancestor object was not operated on", pathStr(full))}
+			if d := conforms(a.k, a.n, ver); d != "" {
+				rep.Violate("C04:string:conforms", "an ancestor key object no longer holds its BIP32 node after its descendants were derived and printed: "+d, ca.replay(ex))
+				return
+			}
+			if want := hdref.String(nil, a.n, ver); a.k.String() != want {
+				rep.Violate("C04:string:conforms", "String() of an ancestor key object changed after its descendants were derived and printed", ca.replay(ex))
+				return
+			}
+		}
+	}
+}
+
 // findLeadingZeroPub scans non-hardened indices for a child whose PUBLIC key has an X coordinate with a leading
 // zero byte (SerializeCompressed must left-pad it), with the reference arithmetic.
 func findLeadingZeroPub(par *hdref.Node, start uint32, maxTries int) (uint32, bool) {
@@ -995,17 +1103,27 @@ func main() {
 	if cfg.Replay != "" {
 		var rp struct {
 			Input struct {
-				Seed string   `json:"seed"`
-				Net  int      `json:"net_index"`
-				Path []uint32 `json:"path_indices"`
-				Hist []uint32 `json:"children_derived_from_the_same_object_in_order"`
+				Seed         string   `json:"seed"`
+				Net          int      `json:"net_index"`
+				Path         []uint32 `json:"path_indices"`
+				Hist         []uint32 `json:"children_derived_from_the_same_object_in_order"`
+				ParsedAt     *int     `json:"parsed_at"`
+				ParsedPublic bool     `json:"parsed_public"`
+				Then         string   `json:"then"`
 			} `json:"input"`
 		}
 		b, err := os.ReadFile(cfg.Replay)
 		vh.Must(err)
 		vh.Must(json.Unmarshal(b, &rp))
 		seed, _ := hex.DecodeString(rp.Input.Seed)
-		if len(rp.Input.Hist) > 0 {
+		if rp.Input.ParsedAt != nil && *rp.Input.ParsedAt <= len(rp.Input.Path) {
+			// an ancestor's replay names the ancestor's path only: extend it as the family does (8 more steps)
+			path := append([]uint32{}, rp.Input.Path...)
+			if rp.Input.Then != "" {
+				path = append(path, 0, H+1, 2, H, 1, 0xffffffff, 3, H-1)
+			}
+			parsedWalk(seed, rp.Input.Net, path[:*rp.Input.ParsedAt], path[*rp.Input.ParsedAt:], rp.Input.ParsedPublic, false)
+		} else if len(rp.Input.Hist) > 0 {
 			siblings(seed, rp.Input.Net, rp.Input.Path, rp.Input.Hist, false)
 		} else {
 			walk(seed, rp.Input.Net, rp.Input.Path, walkOpt{})
@@ -1252,6 +1370,27 @@ func main() {
 		walk(seed, t%len(nets), append(append([]uint32{}, prefix...), i, uint32(r.Intn(1000))), opt(1, 0, t%2 == 0, true))
 	}
 	rep.Extra["targeted_public_children_with_leading_zero_X_found"] = foundp
+
+	// --- trees below a key obtained from NewKeyFromString (xprv and xpub), ancestors re-observed after every step
+	r = rng.Fork("parsed")
+	npw := 10
+	if cfg.Thorough() {
+		npw = 60
+	}
+	if cfg.Search {
+		npw = 800
+	}
+	for t := 0; t < npw; t++ {
+		var prefix []uint32
+		for j := 0; j < r.Intn(3); j++ {
+			prefix = append(prefix, randIndex(r))
+		}
+		path := make([]uint32, 2+r.Intn(5))
+		for j := range path {
+			path[j] = randIndex(r)
+		}
+		parsedWalk(r.Bytes(16+r.Intn(49)), t%len(nets), prefix, path, t%2 == 1, corr && t < 4)
+	}
 
 	// --- SetNet, then derivation: every ordered pair of networks
 	r = rng.Fork("setnet")
